@@ -549,7 +549,8 @@ pub fn extra_definitions() -> Vec<Ty> {
     let e = Ty::Enum(vec![("E1".into(), None), ("E2".into(), Some(5))]);
     let elems = vec![
         Ty::Array(Box::new(Ty::Array(Box::new(Ty::Scalar(Sc::UInt)), 3)), 2),
-        Ty::Array(Box::new(Ty::Array(Box::new(Ty::Array(Box::new(Ty::Scalar(Sc::Char)), 2)), 2)), 2),
+        // char[2][2][2]: the innermost char[2] is a string, so this is a 2 x 2 array of strings
+        Ty::Array(Box::new(Ty::Array(Box::new(Ty::Str(2)), 2)), 2),
         Ty::Array(Box::new(e.clone()), 2),
         Ty::Array(Box::new(Ty::Struct(vec![u.clone(), Ty::Scalar(Sc::Float)])), 2),
         Ty::Array(Box::new(Ty::Scalar(Sc::Double)), 3),
